@@ -339,16 +339,22 @@ func (g *Gen) selField(v Val, name string, env *Env) Val {
 
 // ghostFieldType: type of a ghost field declared (`ghostfield pkg.Type name type`) for struct type t.
 func (g *Gen) ghostFieldType(env *Env, t types.Type, name string) (types.Type, bool) {
-	if g.pc == nil {
-		return nil, false
-	}
 	tn := g.typeName(t)
-	for _, gf := range g.pc.GhostFields {
+	for _, gf := range g.allGhostFields() {
 		if gf.Name == name && (gf.Struct == tn || lastPkgElem(gf.Struct) == tn) {
 			return g.resolveType(env, gf.Type), true
 		}
 	}
 	return nil, false
+}
+
+// allGhostFields: ghost fields are global to the verification (declared once, in the package that models the type).
+func (g *Gen) allGhostFields() []GhostField {
+	var res []GhostField
+	for _, pc := range g.w.contracts {
+		res = append(res, pc.GhostFields...)
+	}
+	return res
 }
 
 func (g *Gen) toIdx(v Val) string {
@@ -875,7 +881,7 @@ func (g *Gen) evalCall(x *ECall, env *Env) Val {
 			}
 		}
 	}
-	if m := g.findMacro(env, x.Fn); m != nil {
+	if m, menv := g.findMacroEnv(env, x.Fn); m != nil {
 		if len(m.Params) != len(x.Args) {
 			panic(contractErr("%s: expected %d arguments", x.Fn, len(m.Params)))
 		}
@@ -884,16 +890,16 @@ func (g *Gen) evalCall(x *ECall, env *Env) Val {
 		}
 		vars := map[string]Val{}
 		for i, p := range m.Params {
-			t := g.resolveType(env, p.Type)
+			t := g.resolveType(menv, p.Type)
 			vars[p.Name] = g.coerce(arg(i), t)
 		}
-		sub := *env
+		sub := *menv
 		sub.vars = vars
 		sub.resolve = nil
 		sub.depth = env.depth + 1
 		r := g.eval(m.Body, &sub)
 		if m.RetType != "" {
-			r = g.coerce(r, g.resolveType(env, m.RetType))
+			r = g.coerce(r, g.resolveType(menv, m.RetType))
 		}
 		return r
 	}
@@ -922,6 +928,34 @@ func (g *Gen) findMacro(env *Env, name string) *Macro {
 	}
 	return nil
 }
+// findMacroEnv: a macro of the current contract set, or `pkg.name` of another package's contract set (evaluated
+// in that package's vocabulary: its types, macros and ghost fields; same heaps).
+func (g *Gen) findMacroEnv(env *Env, name string) (*Macro, *Env) {
+	if m := g.findMacro(env, name); m != nil {
+		return m, env
+	}
+	if i := strings.Index(name, "."); i > 0 {
+		pn, mn := name[:i], name[i+1:]
+		for dir, pc := range g.w.contracts {
+			path := modulePath
+			if dir != "." {
+				path += "/" + dir
+			}
+			sp := g.w.spkgs[path]
+			if sp == nil || sp.Pkg.Name() != pn {
+				continue
+			}
+			if m, ok := pc.Macros[mn]; ok {
+				sub := *env
+				sub.pc = pc
+				sub.pkg = sp.Pkg
+				return m, &sub
+			}
+		}
+	}
+	return nil, nil
+}
+
 func (g *Gen) findUFun(env *Env, name string) *UFun {
 	if env.pc != nil {
 		if m, ok := env.pc.UFuns[name]; ok {
